@@ -1773,13 +1773,9 @@ class AdvancedTag(object):
 
             @return - String of current value of "style" after change is made.
         '''
-        myAttributes = self._attributes
-
-        if 'style' not in myAttributes:
-            myAttributes['style'] = "%s: %s" %(styleName, styleValue)
-        else:
-            setattr(myAttributes['style'], styleName, styleValue)
-#        setattr(self.style, styleName, styleValue)
+        # Always go through the style object: it maps the name ( e.x. paddingTop -> padding-top ),
+        #   removes the property on an empty value, and attaches/detaches the "style" attribute
+        setattr(self.style, styleName, styleValue)
 
     def setStyles(self, styleUpdatesDict):
         '''
